@@ -24,10 +24,11 @@ TAILS=[[{'kind':'DISALLOW','pattern':'*'}],[{'kind':'REQUIRE','pattern':'a'}],[{
 class Rules(Obligation):
     name='C03.rules'
     hash_order='fixed'
-    def __init__(self,group='basic',seq=1,item='step',algs=False,seed=0,known=(),rate=60,**kw):
+    def __init__(self,group='basic',seq=1,item='step',algs=False,seed=0,known=(),rate=60,small=False,**kw):
         self.group=group; self.seq=seq; self.item=item; self.algs=algs; self.seed=seed; self.rate=rate; self.known=set(known)
+        self.u_src=U_SRC[:2] if small else U_SRC; self.u_dst=U_DST[:3] if small else U_DST
         self.name='C03.rules_'+group+('_seq%d'%seq if seq>1 else '')+('_insp' if item!='step' else '')
-        self.bounds={'path_universe':U_SRC,'referenced_step_universe':U_DST,'item':item,
+        self.bounds={'path_universe':self.u_src,'referenced_step_universe':self.u_dst,'item':item,
                      'rule_list':('%d rule(s) from the %s catalog (%d entries)'%(seq,group,len(BASIC) if group=='basic' else len(MATCHES)) if group!='pairs' else 'a pair of MATCH rules from the pair catalog (%d entries: same FROM step with different WITH kinds / prefixes)'%len(PAIRS))+' followed by one of: DISALLOW *, REQUIRE a, REQUIRE d/b, nothing; applied to materials or to products',
                      'artifacts':'per path: absent / material only / product only / both, one free digest byte each (equal or different)' if group=='basic' else 'per path present/absent on the rule side; referenced step: per path present/absent with a free digest byte',
                      'hash_map_iteration':'insertion order (the rule engine iterates BTree collections only; HashMap is used for lookup by name)','normalisation':'all paths already normal (no ./ .. //); non-normal paths are C14\'s'}
@@ -65,18 +66,18 @@ class Rules(Obligation):
         rules=rules+TAILS[run.pick(len(TAILS),'tail')]
         mats={}; prods={}
         if self.group=='basic':
-            for p in U_SRC:
+            for p in self.u_src:
                 st=run.pick(4,'state_'+p)
                 if st in (1,3): mats[p]=self.desc(z3.BitVec('m_'+p,8))
                 if st in (2,3): prods[p]=self.desc(z3.BitVec('p_'+p,8),'sha512' if (self.algs and st==3 and run.pick(2,'alg_'+p)) else 'sha256')
         else:
             own=mats if side=='materials' else prods
-            for p in (U_SRC if self.group!='pairs' else ['a','b','d/b']):
+            for p in (self.u_src if self.group!='pairs' else ['a','b','d/b']):
                 if run.pick(2,'state_'+p): own[p]=self.desc(z3.BitVec('s_'+p,8))
         links={'it':{'materials':mats,'products':prods}}
         if self.group in ('match','pairs'):
             tm={}; tp={}
-            for p in U_DST:
+            for p in (self.u_dst if self.group!='pairs' else U_DST):
                 if self.group=='pairs':
                     st=run.pick(4,'t_'+p) if p in ('a','b') else (1 if p=='e/b' and run.pick(2,'t_'+p) else 0)
                     if st in (1,3): tp[p]=self.desc(z3.BitVec('tp_'+p,8))
